@@ -611,6 +611,17 @@ fn pke_case<B: Backend>(cx: &mut Ctx, rng: &mut Prng, recipients: &[keys::Pair])
                             e = vec![0u8; 48];
                             e[47] = 2;
                         }
+                        if k == 2 {
+                            // an ephemeral secret whose ECDH shared x-coordinate has a leading zero byte (1 in 256), by search
+                            for _ in 0..1500 {
+                                let mut cand = rng.bytes(48);
+                                cand[0] &= 0x7f;
+                                if prim::p384_ecdh(fam, &cand, &r.public).first() == Some(&0) {
+                                    e = cand;
+                                    break;
+                                }
+                            }
+                        }
                         i2.insert("esk".into(), e);
                     }
                     _ => {
@@ -623,7 +634,8 @@ fn pke_case<B: Backend>(cx: &mut Ctx, rng: &mut Prng, recipients: &[keys::Pair])
                         let sk: Key<B::V, PkeSecret> = key_from_bytes(&r.secret).unwrap();
                         let rr = catch_unwind(AssertUnwindSafe(|| SealedKey::<B::V>::from_str(&text).and_then(|s| s.unseal(&sk)).map(|k| key_bytes(&k))));
                         match rr {
-                            Ok(Ok(kb)) => cx.emit("reference", "accepted-same", kb == pdk, json!({"accepted": true, "variant": k, "c_leading_zero": B::VER == 1 && blob[80] == 0})),
+                            Ok(Ok(kb)) => cx.emit("reference", "accepted-same", kb == pdk, json!({"accepted": true, "variant": k, "c_leading_zero": B::VER == 1 && blob[80] == 0,
+                                "xk_leading_zero": B::VER == 3 && i2.get("esk").map(|e| prim::p384_ecdh(fam, e, &r.public).first() == Some(&0)).unwrap_or(false)})),
                             Ok(Err(e)) => cx.emit("reference", "accepted-same", false, json!({"accepted": false, "variant": k, "real_error": errname(&e)})),
                             Err(_) => cx.emit("reference", "accepted-same", false, json!({"panic": true})),
                         }
